@@ -6,8 +6,8 @@
    scripted handlers; [fault_free acts] - no scripted handler panics or
    stalls; [Inv s] - the well-formedness invariant of machine states. *)
 From Coq Require Import List NArith Bool Arith.
-From AMV Require Import Base.ListSet Model.Schema Model.Resolver Model.Machine Spec.C01.
-From AMV Require Proofs.C01Proofs.
+From AMV Require Import Base.ListSet Model.Schema Model.Resolver Model.Machine Spec.C01 Spec.C01f.
+From AMV Require Proofs.C01Proofs Proofs.C01Faults.
 Import ListNotations.
 
 Theorem calls_in_range_def : forall n cs,
@@ -340,3 +340,45 @@ Theorem c01_holds_faulty_refuted :
     c01_ok sch (run fuel (init_st sch tp hl ex bs ql acts) cs) = false.
 Proof. exact C01Proofs.c01_holds_faulty_refuted_lemma. Qed.
 Print Assumptions c01_holds_faulty_refuted.
+
+(* ------------------------------------------------------------------ *)
+(* (6) handler faults: the every-history clauses (parity in every view, *)
+(*     ticks never decrease) for arbitrary fault scripts, and the       *)
+(*     predicate the run-time evaluation applies                        *)
+(* ------------------------------------------------------------------ *)
+
+Theorem c01f_codes_run_any_faults : forall fuel sch tp hl ex bs ql acts cs,
+  refs_ok sch = true -> ex < length sch ->
+  C01Proofs.actions_in_range (length sch) acts = true ->
+  C01Proofs.calls_in_range (length sch) cs = true ->
+  c01f_codes (run fuel (init_st sch tp hl ex bs ql acts) cs) = [].
+Proof. exact C01Faults.c01f_codes_run_any_faults_lemma. Qed.
+Print Assumptions c01f_codes_run_any_faults.
+
+(* [c01_judge]: the whole of [c01_codes] for a fault-free script, the
+   every-history part when the script contains a fault *)
+Theorem c01_judge_run : forall fuel sch tp hl ex bs ql acts cs,
+  refs_ok sch = true -> ex < length sch ->
+  C01Proofs.actions_in_range (length sch) acts = true ->
+  C01Proofs.calls_in_range (length sch) cs = true ->
+  c01_judge sch acts (run fuel (init_st sch tp hl ex bs ql acts) cs) = [].
+Proof. exact C01Faults.c01_judge_run_lemma. Qed.
+Print Assumptions c01_judge_run.
+
+Example c01_judge_run_nonvacuous :
+  let mk := fun (au mu : bool) (rq ad rm : list nat) =>
+    {| s_auto := au; s_multi := mu; s_require := rq; s_add := ad; s_remove := rm; s_after := [] |} in
+  let sch := [ mk false false [] [1] []; mk false true [] [] []; mk true false [1] [] [0];
+               mk false true [] [] [] ] in
+  let bs := [[HEnter 0; HState 0; HExit 0; HEnd 0; HState 1; HAnyState; HAnyEnter; HSelf 1;
+              HState 2; HEnter 2]] in
+  let act := fun f => {| ha_ret := true; ha_calls := []; ha_fault := f |} in
+  let call := fun k l => {| ac_kind := k; ac_states := l; ac_args := false |} in
+  let acts := [act FNone; act FNone; act FPanic] in
+  let cs := [ call KAdd [0]; call KAdd [1]; call KRemove [2]; call KCanRemove [1];
+              call KSet [1; 0]; call KToggle [1]; call KAddErr [] ] in
+  let tr := run 200 (init_st sch (topo_sort sch [0; 1; 2; 3]) [] 3 bs 1000 acts) cs in
+  script_has_faults acts = true /\ c01_judge sch acts tr = [] /\ length (tr_txs tr) = 14 /\
+  c01_codes sch tr <> [].
+Proof. exact C01Faults.c01_judge_run_nonvacuous_lemma. Qed.
+Print Assumptions c01_judge_run_nonvacuous.
